@@ -29,6 +29,10 @@ use tokio::task::JoinHandle;
 use tokio::time;
 use tokio::time::{Duration, Instant, Interval};
 
+#[cfg(feature = "verif")]
+#[path = "session_verif.rs"]
+pub mod verif_hooks;
+
 const END_GAME_LIMIT: usize = 10;
 const CHANNEL_SIZE: usize = 64;
 const BROADCAST_CHANNEL_SIZE: usize = 32;
@@ -661,6 +665,11 @@ impl Session {
     }
 
     fn spawn_tracker(&mut self) {
+        #[cfg(feature = "verif")]
+        if let Some(job) = crate::verif::scripted_tracker(self.tracker.tx_ch.clone()) {
+            self.tracker.job = Some(job);
+            return;
+        }
         let mut tracker = TrackerClient::new(
             &self.own_id,
             self.metainfo.clone(),
